@@ -11,6 +11,10 @@ struct vp_exc_t vp_exc;
 struct vp_exc_t vp_caught;
 #endif
 
+VP_TLS2 int vp_nothrow_flag;
+#ifdef NEED_ir_vp_nothrow
+void ir_vp_nothrow(u8 on){ vp_nothrow_flag = on; }
+#endif
 static int vp_exc_match(int thrown, int want)
 {
   int t = thrown;
@@ -66,7 +70,7 @@ void ir_vp_shared(void *p, u64 n){
 #endif
 
 /* ---- allocation: operator new/delete = malloc/free; allocation failure out of scope ---- */
-u64 vp_objsz[256];
+u64 vp_objsz[1024];
 static inline void *vp_alloc(u64 n){ __CPROVER_assert(n <= VP_HEAP_MAX, "BOUND:heap block larger than VP_HEAP_MAX"); __CPROVER_assume(n <= VP_HEAP_MAX); void *p = malloc(VP_HEAP_MAX); __CPROVER_assume(p != 0); vp_objsz[__CPROVER_POINTER_OBJECT(p)] = n + 1; return p; }
 #ifdef NEED_ir__Znwm
 void *ir__Znwm(u64 n){ return vp_alloc(n); }
